@@ -186,6 +186,10 @@ type Options struct {
 	Args     []string // goderive flags
 	Timeout  time.Duration
 	RejectOK bool // do not treat a rejected subject as a violation
+	// AfterGenerate runs after goderive succeeded and before the harness is built (e.g. to derive further
+	// packages from the generated code); an error skips the case with a note.
+	AfterGenerate func(dir string) error
+	TestRun       string // -test.run pattern of the harness (default ^TestH)
 	// CrashIsViolation: the harness process dying (unrecovered panic in a goroutine of the code under
 	// test, e.g. send on closed channel) or a data race report is a violation, described by the case log.
 	CrashIsViolation bool
@@ -221,6 +225,13 @@ func RunCase(c *pkit.Ctx, rt *rapid.T, s *Subject, o Options) *Outcome {
 		c.Rep.Note("subject rejected by goderive: %s", pkit.Trunc(out.GenFailed, 300))
 		rejected(c, rt, o, files, "goderive-exit", out.GenFailed)
 		return out
+	}
+	if o.AfterGenerate != nil {
+		if err := o.AfterGenerate(dir); err != nil {
+			c.Rep.Class("skipped:after-generate")
+			c.Rep.Note("case skipped: %v", err)
+			return out
+		}
 	}
 	gobin := gorun.Go
 	if o.Go126 {
@@ -261,7 +272,11 @@ func RunCase(c *pkit.Ctx, rt *rapid.T, s *Subject, o Options) *Outcome {
 	if to == 0 {
 		to = 20 * time.Minute
 	}
-	args := []string{"-test.run", "^TestH", "-test.timeout", "0", "-rapid.checks=" + strconv.Itoa(o.Checks),
+	pattern := o.TestRun
+	if pattern == "" {
+		pattern = "^TestH"
+	}
+	args := []string{"-test.run", pattern, "-test.timeout", "0", "-rapid.checks=" + strconv.Itoa(o.Checks),
 		"-rapid.seed=" + strconv.FormatUint(seed, 10), "-rapid.nofailfile", "-rapid.shrinktime=20s"}
 	hr := gorun.Run(filepath.Join(dir, "h"), to, env, filepath.Join(dir, "h.test"), args...)
 	out.HarnessOut = hr.Stdout + hr.Stderr
